@@ -164,7 +164,8 @@ func firstDiff(a, b string) int {
 type verbSpec struct{ format string }
 
 var plainVerbs = []string{"v", "s", "q", "x", "X"}
-var flagSets = []string{"", "-", "#", " ", "0", "+", "-0", "# ", "+-"}
+// the flags the property lists: '-', '#', ' ', '0' ('+' selects the verbose form and is passed on to foreign Format methods)
+var flagSets = []string{"", "-", "#", " ", "0", "-0", "# ", "-#", "0 "}
 var widths = []string{"", "3", "12", "40"}
 var precs = []string{"", ".0", ".2", ".30"}
 
@@ -253,7 +254,7 @@ func oracleC09(res *Result, c *Case, seedPick int) {
 				}
 			}
 			// other verbs: fmt's %!verb(type) notation
-			for _, vb := range []string{"d", "t", "e", "c", "p", "U"} {
+			for _, vb := range []string{"d", "t", "e", "c", "U", "b", "o", "f"} { // %p and %T never reach a Format method
 				res.OracleEvals["C09.bad_verb"]++
 				want := "%!" + vb + "(" + fmt.Sprintf("%T", e) + ")"
 				if got := fmt.Sprintf("%"+vb, tg.v); got != want {
@@ -337,9 +338,13 @@ func oracleOwnDetails(res *Result, c *Case, stage string, e error) {
 		var want []string
 		switch fmt.Sprintf("%T", l) {
 		case "*hintdetail.withHint":
-			want = append(want, errors.GetAllHints(l)[:1]...)
+			if h, ok := l.(interface{ ErrorHint() string }); ok && h.ErrorHint() != "" {
+				want = append(want, h.ErrorHint())
+			}
 		case "*hintdetail.withDetail":
-			want = append(want, errors.GetAllDetails(l)[:1]...)
+			if h, ok := l.(interface{ ErrorDetail() string }); ok && h.ErrorDetail() != "" {
+				want = append(want, h.ErrorDetail())
+			}
 		case "*issuelink.withIssueLink":
 			if ls := errors.GetAllIssueLinks(l); len(ls) > 0 {
 				if ls[0].IssueURL != "" {
